@@ -58,3 +58,24 @@ Theorem C06_pinned_value_held :
     so_psi _ out f = v.
 Proof. exact pinned_value_held. Qed.
 Print Assumptions C06_pinned_value_held.
+
+(* every step of a run *)
+Theorem C06_run_terminal_zero :
+  forall (a : nat -> R) (n : nat) (es : list edgeR) (fixed : list nat) (solve : (nat -> R) -> nat -> R)
+         (expi : R -> RC) (gamma u : R),
+    NoDup fixed -> forall l psi mu,
+    (forall f, In f fixed -> psi f = (0, 0)) ->
+    Forall (fun x : option (step_out OpsR) =>
+              match x with Some o => forall f, In f fixed -> so_psi _ o f = (0, 0) | None => True end)
+           (run_steps OpsR a n es fixed solve None expi gamma u psi mu l).
+Proof. exact run_terminal_zero. Qed.
+Print Assumptions C06_run_terminal_zero.
+
+Theorem C06_run_pinned_value_held :
+  forall (a : nat -> R) (n : nat) (es : list edgeR) (fixed : list nat) (solve : (nat -> R) -> nat -> R)
+         (expi : R -> RC) (v : RC) (gamma u : R) l psi mu,
+    Forall (fun x : option (step_out OpsR) =>
+              match x with Some o => forall f, In f fixed -> so_psi _ o f = v | None => True end)
+           (run_steps OpsR a n es fixed solve (Some v) expi gamma u psi mu l).
+Proof. exact run_pinned_value_held. Qed.
+Print Assumptions C06_run_pinned_value_held.
